@@ -40,6 +40,8 @@ def match_fn(name):
         "key_match3": util.key_match3,
         "regex": _regex_full,
         "eq": lambda a, b: a == b,
+        # only real `prefix*` patterns match: NOT reflexive on concrete names (a name does not match its own text)
+        "prefix_star": lambda k, p: p.endswith("*") and k.startswith(p[:-1]),
         "raising": _raising,
     }[name]
 
